@@ -88,26 +88,31 @@ def resolved(b):
 
 
 def call_impl(c, call):
-    """apply one call to the cirbo Circuit c; result normalised to (label lists, levels)"""
+    """apply one call to the cirbo Circuit c; result normalised to (label lists, levels).  Operand lists are
+    real list objects, the same object when equal; no generator may modify a list it was given"""
+    return ac.hand_over(call[0], lambda L: _call_impl(c, call, L))
+
+
+def _call_impl(c, call, L):
     SM = _sm()
     k = call[0]
     if k == 'cell':
-        return [list(getattr(SM, call[1])(c, list(call[2])))], []
+        return [list(getattr(SM, call[1])(c, L(call[2])))], []
     if k == 'nbits':
-        return [list(SM.add_sum_n_bits(c, list(call[3]), basis=py_basis(call[1]), big_endian=call[2]))], []
+        return [list(SM.add_sum_n_bits(c, L(call[3]), basis=py_basis(call[1]), big_endian=call[2]))], []
     if k == 'easy':
-        return [list(SM.add_sum_n_bits_easy(c, list(call[2]), big_endian=call[1]))], []
+        return [list(SM.add_sum_n_bits_easy(c, L(call[2]), big_endian=call[1]))], []
     if k == 'pow2':
-        r = SM.add_sum_pow2_m1(c, list(call[3]), big_endian=call[2], basis=py_basis(call[1]))
+        r = SM.add_sum_pow2_m1(c, L(call[3]), big_endian=call[2], basis=py_basis(call[1]))
         return [list(x) for x in r], []
     if k in ('weighted', 'naive'):
         f = SM.add_sum_n_weighted_bits if k == 'weighted' else SM.add_sum_n_weighted_bits_naive
-        r = f(c, [(w, l) for w, l in call[2]], basis=py_basis(call[1]))
+        r = f(c, L([(w, l) for w, l in call[2]]), basis=py_basis(call[1]))
         return [[x[1] for x in r]], [x[0] for x in r]
     if k == 'sum2':
-        return [list(SM.add_sum_two_numbers(c, list(call[1]), list(call[2]), big_endian=call[3]))], []
+        return [list(SM.add_sum_two_numbers(c, L(call[1]), L(call[2]), big_endian=call[3]))], []
     if k == 'shift':
-        return [list(SM.add_sum_two_numbers_with_shift(c, call[1], list(call[2]), list(call[3]),
+        return [list(SM.add_sum_two_numbers_with_shift(c, call[1], L(call[2]), L(call[3]),
                                                        big_endian=call[4]))], []
     raise ValueError(k)
 
